@@ -156,6 +156,10 @@ def stepLine (s : State) (line : String) : State × String :=
     | some k, some id => apply s (.finChan k id) | _, _ => (s, "bad-op")
   | ["fincli", k] => match nat? k with
     | some k => apply s (.finClient k) | _ => (s, "bad-op")
+  | ["guard", k] => match nat? k with
+    | some k => apply s (.guard k) | _ => (s, "bad-op")
+  | ["deliverarmed", k, id, now] => match nat? k, nat? id, int? now with
+    | some k, some id, some now => apply s (.deliverArmed k id now) | _, _, _ => (s, "bad-op")
   | ["req", k, id, d, now] => match nat? k, nat? id, nat? d, int? now with
     | some k, some id, some d, some now => apply s (.req k id d now) | _, _, _, _ => (s, "bad-op")
   | ["touch", k, id, now] => match nat? k, nat? id, int? now with
